@@ -187,6 +187,12 @@ func GenDiffIn(t *rapid.T) *DiffIn {
 		}
 	}
 	in.Prelude = append(in.Prelude, Op{Kind: "setmeta", Target: cfg.Accounts, Key: "src", Value: acctName(0), Tag: "precfg"})
+	if pct(t, 12, "shortPrelude") {
+		// previews right behind the very first entries of a ledger
+		if k := rapid.IntRange(0, 1).Draw(t, "preludeLen"); k < len(in.Prelude) {
+			in.Prelude = in.Prelude[:k]
+		}
+	}
 	ngens := rapid.IntRange(1, 3).Draw(t, "gens")
 	np := 0
 	for g := 0; g < ngens; g++ {
